@@ -94,6 +94,11 @@ claim("C16",
       "missing/empty labels, conjunction/disjunction and regex anchoring; the fallback decision table on inputs covering every verdict combination of the two real parsers.",
       "Bit-vector arithmetic. The regexp engine is not interpreted (regular expressions come from pools; the classic parser, itself a regexp, only runs on concrete inputs); names with reserved "
       "characters (strconv.Quote) and inputs longer than the bound are outside. " + TRUSTED, "4 C16")
+claim("C17",
+      "Only the post-decode half of the statement: the real validators (Config, Route, Receiver, time-interval UnmarshalYAML bodies and Load's root checks) run on decoded configurations of bounded shape (valid ones and every "
+      "defect the validators are meant to catch, on root, child and grandchild): accepted => well formed; the coordinator keeps the configuration and does not reach its subscribers when loading fails; the three secret types marshal to <secret>.",
+      "NOT claimed (cannot be encoded): totality of the YAML decoder on arbitrary bytes (yaml.v2 is reflection-driven parser code), that every secret-bearing field of the 18 integrations has a secret type, the per-integration validation, "
+      "the print->load round trip, and the fallible-work-first ordering of app.reloader. Bounds: <=3 route nodes, 18 node shapes, 5 receiver lists, 6 interval lists. The coordinator harness replaces LoadFile by a symbolic outcome (engine only). " + TRUSTED, "4 C17")
 claim("C18",
       "Histories of submissions, heartbeats, expiry and GC under a per-alert-name limit 1..3 on the real store+limit.Bucket code with symbolic end times (limit invariant, "
       "re-sends accepted, refusals reported, GC only removes resolved); silence count/size limits through the real Set (create, in-place edit, replacing edit) incl. 'rejected leaves state untouched'.",
